@@ -294,18 +294,33 @@ def r2(ctx, r):
     vis = [b for b in f.blocks.values() if b.cond is not None and "visitedPointers.find(pointer)" in show(b.cond)]
     ins = [e for e in f.stmts() if e.node.get("k") == "mcall" and last(e.node.get("callee", "")) == "insert" and key_of(e.node.get("obj")) == "visitedPointers"]
     r.instance()
-    ok = len(jump) == 1 and len(rng) == 1 and len(vis) == 1 and len(ins) == 1
+    if len(jump) == 1 and not rng:
+        # no explicit comparison: the range may be established through the throwing helper checkBounds(off, n, total), which
+        # guarantees off + n <= total.  A valid pointer needs pointer + 1 <= size.
+        cbs = [e for e in f.stmts() if e.node.get("k") in ("call", "mcall") and last(e.node.get("callee", "")) == "checkBounds" and elem_dominates(f, e, jump[0], eh=False)
+               and any(key_of(strip_casts(a)) == "pointer" for a in e.node.get("args", []))]
+        if not cbs:
+            r.fail(f, jump[0], "pointer range", "the jump to a compression pointer is behind no range test at all: an out-of-range pointer is followed")
+        for e in cbs:
+            a = [strip_casts(x) for x in e.node["args"]]
+            others = [const_value(x) for x in a[:2] if key_of(x) != "pointer"]
+            enough = len(a) >= 3 and key_of(a[2]) == "size" and len(others) == 1 and others[0] is not None and others[0] >= 1
+            r.expect(enough, f, e, "pointer range", "the compression pointer is validated with `%s`, which guarantees only %s <= size: a pointer equal to the message length (one past the last byte) is accepted — the name silently "
+                     "ends there and the message decodes — where `pointer >= size` must be an error" % (show(e.node)[:50], " + ".join(show(x) for x in a[:2])), okdesc="pointer + n <= size with n >= 1")
+        rng = None
+    ok = len(jump) == 1 and (rng is None or len(rng) == 1) and len(vis) == 1 and len(ins) == 1
     if ok:
-        op = range_test(rng[0])[0]
-        ok = op in (">=",) and dominated_by_edge(f, jump[0], rng[0], 1, eh=False)
-        r.expect(ok, f, jump[0], "pointer range", "the jump to a compression pointer is not behind `pointer >= size → throw`: an out-of-range pointer is followed", okdesc="jump behind pointer < size")
+        if rng is not None:
+            op = range_test(rng[0])[0]
+            ok = op in (">=",) and dominated_by_edge(f, jump[0], rng[0], 1, eh=False)
+            r.expect(ok, f, jump[0], "pointer range", "the jump to a compression pointer is not behind `pointer >= size → throw`: an out-of-range pointer is followed", okdesc="jump behind pointer < size")
         r.instance()
         vop = common.cmp_parts(vis[0].cond)[0]
         ok = dominated_by_edge(f, jump[0], vis[0], 1 if vop == "!=" else 0, eh=False) and elem_dominates(f, ins[0], jump[0], eh=False) and key_of(ins[0].node["args"][0]) == "pointer" and \
             any(x.kind == "stmt" and x.node.get("k") == "throw" for x in _reach_until_ret(f, vis[0].succs[0 if vop == "!=" else 1]))
         r.expect(ok, f, jump[0], "pointer loop", "a compression pointer is followed without the visited-set test and insert: a pointer loop never terminates", okdesc="jump behind not-visited test; target recorded first")
     else:
-        r.fail(f, None, "pointer handling shape", "decodeNameWithLoopDetection: expected one jump, one range test, one visited test and one insert (found %d/%d/%d/%d)" % (len(jump), len(rng), len(vis), len(ins)))
+        raise AnalysisBroken("decodeNameWithLoopDetection: expected one jump, one range test, one visited test and one insert (found %d/%s/%d/%d) — a shape this rule does not know" % (len(jump), len(rng) if rng is not None else "-", len(vis), len(ins)))
     # the position at which the caller resumes is fixed at the FIRST pointer of the name
     rv = [e for e in common.returns(f)]
     res = None
@@ -561,12 +576,22 @@ def r6(ctx, r):
     ranges = [show(strip_views(v["init"])) for e in crt.stmts() if e.node.get("k") == "decl" for v in e.node["vars"] if v["n"].startswith("__range") and v.get("init") is not None]
     if len(colls) < 10:
         raise AnalysisBroken("DnsResult: only %d record collections found" % len(colls))
+    # a collection takes part either as the range of its own loop or through its address in a list that a loop walks
+    # (`for (auto *sec : {&result.answers, …})`): what matters is which DnsResult members the function reads at all — and that
+    # every loop that iterates records folds the minimum
+    RES = "iora::network::dns::DnsResult::"
+    via_addr = {last(x["v"]["n"]) for e in crt.stmts() for x in walk(e.node) if x.get("k") == "un" and x.get("op") == "&" and (x.get("v") or {}).get("k") == "member" and x["v"]["n"].startswith(RES)}
+    covered = {c for c in colls if "result." + c in ranges} | (via_addr & set(colls))
     for c in colls:
         r.instance()
-        r.expect("result." + c in ranges, crt, None, "TTL ignores %s" % c, "calculateResultTtl does not include DnsResult::%s in the minimum: a record there with a shorter TTL is served after it expired" % c, okdesc="min over result.%s" % c)
-    mins = [e for e in crt.stmts() if asg(e.node) and key_of(asg(e.node)[0]) == "min_ttl" and "std::min" in show(asg(e.node)[1])]
+        r.expect(c in covered, crt, None, "TTL ignores %s" % c, "calculateResultTtl does not include DnsResult::%s in the minimum: a record there with a shorter TTL is served after it expired" % c, okdesc="min over result.%s" % c)
+    mins = [e for e in crt.stmts() if asg(e.node) and "std::min" in show(asg(e.node)[1]) and key_of(asg(e.node)[0]) is not None and key_of(asg(e.node)[0]) in show(asg(e.node)[1])]
+    loops = [b for b in crt.blocks.values() if b.term and b.term.get("k") == "CXXForRangeStmt" and b.cond is not None]
+    # innermost record loops: loops whose body contains no other loop head
+    inner = [b for b in loops if not any(o is not b and search(crt, ("block", b.succs[0]), lambda x, o=o: x.block is o, stop=lambda x, b=b: x.block is b, eh=False) is not None for o in loops)]
     r.instance()
-    r.expect(len(mins) == len(ranges) and all("record.ttl" in show(asg(e.node)[1]) and "min_ttl" in show(asg(e.node)[1]) for e in mins), crt, None, "minimum computation", "a loop of calculateResultTtl does not fold std::min(min_ttl, record.ttl)", okdesc="%d loops fold std::min(min_ttl, record.ttl)" % len(mins))
+    okm = bool(inner) and all(any(search(crt, ("block", b.succs[0]), lambda x, m=m: x is m, stop=lambda x, b=b: x.block is b, eh=False) is not None and ".ttl" in show(asg(m.node)[1]) for m in mins) for b in inner)
+    r.expect(okm, crt, None, "minimum computation", "a record loop of calculateResultTtl does not fold `x = std::min(x, record.ttl)`", okdesc="%d record loops fold the minimum" % len(inner))
     cn = [g for g in fb.funcs(DC + "::calculateNegativeTtl", DCF) if g.ok][0]
     rt = [e for e in common.returns(cn) if "record.minimum" in show(e.node)]
     r.instance()
